@@ -290,7 +290,9 @@ def graphOp (n : Nat) (edges : List (Nat × Nat)) (ts : List String) : Option (O
 /-! ### graph histories on ONE `Graph` value (`@ C18 graphh`)
 
 Operations `init c` (`g.Init(c)`), `node v`, `und a b` (`AddUndirectedEdge`), `arc a b` (`AddEdge`),
-`len`, `paths` (a `GetPaths` call whose policy accepts nothing: it only walks the node list),
+`cnode v` / `cund a b` / `carc a b` (the same calls on a by-value COPY of the Graph struct, which shares
+the exported `Nodes` map), `mnode v` / `marc a b` / `mdel v` (direct writes to / deletes from the exported
+map), `len`, `paths` (a `GetPaths` call whose policy accepts nothing: it only walks the node list),
 `cliques` (canonical `GetMaximalCliques`).  The state is the model of the construction API
 (`GMap`); a query is answered from the CURRENT state only. -/
 
@@ -306,6 +308,24 @@ def histOp (g : GMap) (ts : List String) : Option (GMap × Option String) :=
     match a.toNat?, b.toNat? with
     | some a, some b => if a = b then none else some (gAddEdge g a b, some "ok")
     | _, _ => none
+  -- the same graph changed WITHOUT the methods of that value: through a by-value copy of the struct
+  -- (`h := *g; h.AddNode(v)`: the copy shares the exported `Nodes` map) or by writing the exported
+  -- map directly — the same abstract updates
+  | ["cnode", v] => match v.toNat? with | some v => some (gAddNode g v, some "ok") | none => none
+  | ["mnode", v] => match v.toNat? with | some v => some (gAddNode g v, some "ok") | none => none
+  | ["cund", a, b] =>
+    match a.toNat?, b.toNat? with
+    | some a, some b => if a = b then none else some (gAddUndirectedEdge g a b, some "ok")
+    | _, _ => none
+  | ["carc", a, b] =>
+    match a.toNat?, b.toNat? with
+    | some a, some b => if a = b then none else some (gAddEdge g a b, some "ok")
+    | _, _ => none
+  | ["marc", a, b] =>
+    match a.toNat?, b.toNat? with
+    | some a, some b => if a = b then none else some (gAddEdge g a b, some "ok")
+    | _, _ => none
+  | ["mdel", v] => match v.toNat? with | some v => some (gDelNode g v, some "ok") | none => none
   | ["len"] => some (g, some (toString (gKeys g).length))
   | ["paths"] => some (g, some "ok")
   | ["cliques"] =>
